@@ -6,3 +6,6 @@ import LicenseExpr.Props.C17
 #print axioms LE.C17_pair_partial
 #print axioms LE.C17_slice
 #print axioms LE.C17_lossless
+#print axioms LE.C17_cover
+#print axioms LE.tok_pairwise_cases
+#print axioms LE.C17_once
